@@ -615,6 +615,51 @@ fn gen_gm(g: &TermGen, r: &mut Rng, depth: usize, stats: &mut Stats) -> String {
     s
 }
 
+fn kind_name(t: &T) -> &'static str {
+    match t {
+        T::Iri(_) => "iri",
+        T::Bnode(_) => "bnode",
+        T::Lit(..) | T::Lang(..) => "literal",
+        T::Triple(_) => "triple",
+        T::Var(_) => "variable",
+    }
+}
+
+/// a NON-constant matcher that accepts `term` but is selective (its kind, a 2-element set containing it,
+/// the negation of another constant, the closure of its parity): results stay non-empty while each
+/// position's residual matcher accepts something different — swapping two of them changes the result
+fn selective_tm(g: &TermGen, r: &mut Rng, term: &T, stats: &mut Stats) -> String {
+    stats.bump("matcher.selective");
+    match r.below(5) {
+        0 => format!("K {}", kind_name(term)),
+        1 => format!("S 2 {} {}", term.render(), g.term(r, 1).render()),
+        2 => format!("R 2 {} {}", g.term(r, 1).render(), term.render()),
+        3 => format!("F {}", weight(term) % 2),
+        _ => {
+            let other = g.term(r, 1);
+            if canon(&other) == canon(term) { format!("K {}", kind_name(term)) } else { format!("! O {}", other.render()) }
+        }
+    }
+}
+
+fn selective_gm(g: &TermGen, r: &mut Rng, gn: &Option<T>, stats: &mut Stats) -> String {
+    stats.bump("matcher.gselective");
+    let show = |x: &Option<T>| x.as_ref().map(|t| t.render()).unwrap_or("-".into());
+    match r.below(4) {
+        0 => match gn {
+            None => "GK none".to_string(),
+            Some(t) if matches!(t, T::Triple(_) | T::Var(_)) => format!("Gm K {}", kind_name(t)),
+            Some(t) => format!("GK {}", kind_name(t)),
+        },
+        1 => format!("GS 2 {} {}", show(gn), gen_gname(g, r)),
+        2 => format!("GF {}", gn.as_ref().map(weight).unwrap_or(0) % 2),
+        _ => match gn {
+            Some(t) => format!("Gm {}", selective_tm(g, r, t, stats)),
+            None => format!("G! GK {}", r.pick(&["iri", "bnode", "literal"])),
+        },
+    }
+}
+
 fn gen_pat(g: &TermGen, r: &mut Rng, graph: bool, stats: &mut Stats, pool: &[Q]) -> String {
     // Most patterns are derived from an existing quad so that every index arm is hit with constants
     // that exist and results are non-empty; per position: exact constant / Any / another matcher.
@@ -631,6 +676,9 @@ fn gen_pat(g: &TermGen, r: &mut Rng, graph: bool, stats: &mut Stats, pool: &[Q])
                 1 => format!("S 1 {}", term.render()),
                 _ => format!("R 1 {}", term.render()),
             });
+        } else if let (Some(q), true) = (&q, roll < 6) {
+            shape.push('0');
+            parts.push(selective_tm(g, r, [&q.s, &q.p, &q.o][i], stats));
         } else if roll < 8 {
             shape.push('0');
             stats.bump("matcher.any");
@@ -658,6 +706,9 @@ fn gen_pat(g: &TermGen, r: &mut Rng, graph: bool, stats: &mut Stats, pool: &[Q])
                     None => "GO -".into(),
                 },
             });
+        } else if let (Some(q), true) = (&q, roll < 6) {
+            shape.push('0');
+            parts.push(selective_gm(g, r, &q.g, stats));
         } else if roll < 8 {
             shape.push('0');
             stats.bump("matcher.gany");
